@@ -20,7 +20,7 @@ import (
 
 var faultDirs = []string{"c2s", "s2c"}
 var faultPos = []string{"before", "header", "mid", "last", "after"}
-var faultKinds = []string{"fin", "rst", "blackhole"}
+var faultKinds = []string{"fin", "rst", "blackhole", "wsclose"}
 
 func c03Workload(name string) []fsCall {
 	switch name {
@@ -68,7 +68,7 @@ func c03Workload(name string) []fsCall {
 func genFault(t *rapid.T, label string, maxFrame int) *Fault {
 	return &Fault{
 		Dir: rapid.SampledFrom(faultDirs).Draw(t, label+"_dir"), Frame: rapid.IntRange(0, maxFrame).Draw(t, label+"_frame"),
-		Pos: rapid.SampledFrom(faultPos).Draw(t, label+"_pos"), Kind: rapid.SampledFrom([]string{"fin", "fin", "rst", "rst", "blackhole"}).Draw(t, label+"_kind"),
+		Pos: rapid.SampledFrom(faultPos).Draw(t, label+"_pos"), Kind: rapid.SampledFrom([]string{"fin", "fin", "rst", "rst", "blackhole", "wsclose"}).Draw(t, label+"_kind"),
 	}
 }
 
@@ -157,7 +157,7 @@ func TestC03(t *testing.T) {
 	rec := NewRec("C03", c03Rule)
 	defer rec.Finish(t)
 	rec.EnableJournal()
-	rec.RequireClass("fault_inside_frame", "call_in_window", "double_fault", "kind_fin", "kind_rst", "kind_blackhole", "dir_c2s", "dir_s2c", "window_reached")
+	rec.RequireClass("kind_wsclose", "fault_inside_frame", "call_in_window", "double_fault", "kind_fin", "kind_rst", "kind_blackhole", "dir_c2s", "dir_s2c", "window_reached")
 	sh, nsh := shard()
 
 	run := func(ft failer, c fsCase) {
